@@ -207,6 +207,9 @@ pub mod stubs {
 		unsafe { core::mem::zeroed() }
 	}
 
+	/// the sender's rate-limit pause has no data effect
+	pub fn thread_sleep(_d: std::time::Duration) {}
+
 	// ---- E14: zeroize's compiler barrier is inline asm with no data effect
 	pub fn optimization_barrier<T: ?Sized>(_v: &T) {}
 
@@ -637,6 +640,7 @@ macro_rules! proof {
 		$crate::proof! { @acc [$($g,)*] [$($a)*
 			#[cfg_attr(kani, kani::stub(std::time::SystemTime::now, crate::env::stubs::system_time_now))]
 			#[cfg_attr(kani, kani::stub(std::time::Instant::now, crate::env::stubs::instant_now))]
+			#[cfg_attr(kani, kani::stub(std::thread::sleep, crate::env::stubs::thread_sleep))]
 		] $($rest)* }
 	};
 	( @acc [zeroize, $($g:ident,)*] [$($a:tt)*] $($rest:tt)* ) => {
